@@ -212,6 +212,18 @@ def gen_netlist(rng):
             tot = sum(r[2] * r[3] for r in rects)
             m["area"] = rng.choice([tot, tot / 2, tot * F(3, 4), tot])
         mods.append(m)
+    # now and then a second FIXED module sits on top of a fixed one (same shape as its trunk, a quarter of the trunk's size
+    # further up and right): neither can move, the input configuration breaks the no-overlap clause and only that one,
+    # and the system must say so although no variable is involved
+    if rng.random() < 0.1:
+        fx = [m for m in mods if m["kind"] == "fixed"]
+        if fx:
+            src = rng.choice(fx)
+            t = src["rects"][0]
+            r = [t[0] + t[2] / 4, t[1] + t[3] / 4, t[2], t[3]]
+            if r[0] + r[2] / 2 <= dw and r[1] + r[3] / 2 <= dh:
+                mods.append({"name": "M%d" % len(mods), "kind": "fixed", "rects": [r], "slot": list(src["slot"]),
+                             "intfmt": src["intfmt"] and all(v == int(v) for v in r)})
     nets = []
     names = [m["name"] for m in mods]
     if len(names) >= 2:
@@ -889,7 +901,8 @@ def shrink(case):
             names = {m["name"] for j, m in enumerate(mods) if j != k}
             yield dict(case, modules=mods[:k] + mods[k + 1:],
                        nets=[n for n in case.get("nets", []) if all(x in names for x in n)],
-                       configs=[dict(c, vals=c["vals"][:k] + c["vals"][k + 1:]) for c in cfgs])
+                       configs=[dict(c, vals=None if c["vals"] is None else c["vals"][:k] + c["vals"][k + 1:])
+                                for c in cfgs])
     # fewer branches (only the input configuration can be kept)
     for k, m in enumerate(mods):
         for j in range(1, len(m["rects"])):
